@@ -28,7 +28,7 @@ EXTENDS Integers, Sequences, FiniteSets, FiniteSetsExt, TLC
 VARIABLES
   pay,      \* [pid -> [node, hash, amt, nparts, fixed, gen, term, fee, rep, dead, initf, owed, blame]]  (gen: how often the id was accepted)
   ht,       \* [<<chan, adder, id>> -> [hash, pid, gen, st, amt]]   every HTLC offered anywhere; pid = 0: not a payer's own part
-            \*   st: "flight" | "ful" | "fail"; an HTLC stays in flight after its channel was closed for as long as
+            \*   st: "flight" | "ful" | "fail" | "lost"; an HTLC stays in flight after its channel was closed for as long as
             \*   an output of its value sits unspent in the confirmed (or a not yet confirmed) commitment
   pidOf,    \* [hash -> pid]  the payment id the payer last used this hash with
   released, \* set of hashes whose preimage a recipient released (claim_funds was called)
@@ -46,6 +46,7 @@ Pids == DOMAIN pay
 Own(pid) == {k \in DOMAIN ht : ht[k].pid = pid /\ ht[k].gen = pay[pid].gen}
 InFlight(pid) == \E k \in Own(pid) : ht[k].st = "flight"
 Settled(pid) == \E k \in Own(pid) : ht[k].st = "ful"
+Lost(pid) == \E k \in Own(pid) : ht[k].st = "lost"
 \* every part the payer meant to send exists as an HTLC or was refused at once
 AllPartsOut(pid) == pay[pid].fixed => Cardinality(Own(pid)) + pay[pid].initf >= pay[pid].nparts
 
@@ -191,8 +192,16 @@ SRestart(node, isStale) ==
 (* no longer be claimed: it is forfeited / failed.  The others stay in flight until their output is *)
 (* spent.                                                                                           *)
 SChainCommit(chan, outs) ==
-  /\ ht' = [k \in DOMAIN ht |-> IF k[1] = chan /\ ht[k].st = "flight" /\ (ht[k].amt \div 1000) \notin outs
-                                 THEN [ht[k] EXCEPT !.st = "fail"] ELSE ht[k]]
+  LET noOutput(k) == k[1] = chan /\ (ht[k].amt \div 1000) \notin outs
+      \* an off-chain fulfil that was handed to a payer which then restarted from a stale snapshot, before its user
+      \* saw PaymentSent, may have been lost with the crash; without an output (dust) it cannot be repeated on chain:
+      \* the amount is forfeited and either outcome may be reported
+      unreported(k) == /\ ht[k].st = "ful" /\ stale /\ ht[k].pid \in Pids
+                       /\ pay[ht[k].pid].gen = ht[k].gen /\ pay[ht[k].pid].term # "sent"
+  IN
+  /\ ht' = [k \in DOMAIN ht |-> IF noOutput(k) /\ ht[k].st = "flight" THEN [ht[k] EXCEPT !.st = "fail"]
+                                 ELSE IF noOutput(k) /\ unreported(k) THEN [ht[k] EXCEPT !.st = "lost"]
+                                 ELSE ht[k]]
   /\ UNCHANGED <<pay, pidOf, released, failSeen, snap, spent, feeKnown, initBal, gotAdd, stale>>
 
 (* ---- a confirmed transaction spends an HTLC output of `chan`'s commitment whose script commits   *)
@@ -217,7 +226,7 @@ SRecentAfterRestart(node, listed) ==
 (* carry no HTLC has paid exactly amount + reported fee for every PaymentSent, nothing else.  *)
 TerminalOK(p) ==
   (~InFlight(p) /\ AllPartsOut(p) /\ ~pay[p].dead) =>
-     IF Settled(p) THEN pay[p].term = "sent" ELSE pay[p].term = "failed"
+     IF Settled(p) THEN pay[p].term = "sent" ELSE IF Lost(p) THEN pay[p].term \in {"sent", "failed"} ELSE pay[p].term = "failed"
 SQuietOK(balOf, idle) ==
   /\ \A p \in Pids : TerminalOK(p)
   /\ \A n \in DOMAIN initBal :
